@@ -8,6 +8,7 @@ import (
 	"time"
 
 	"github.com/sirupsen/logrus"
+	"github.com/tilinna/clock"
 
 	"github.com/atlassian/gostatsd"
 )
@@ -17,22 +18,30 @@ import (
 // constructPost / postWrapper (encoding/json stubbed) against a symbolic per-attempt fault
 // script, 1..2 batches, 0..2 free request buffers, the three flush types, shutdown before or
 // during the flush.
-func VerifC16_NewRelic() { verifC16NewRelic("") }
+// quick: Infra flush type, no shutdown (the goroutine-per-batch / collector code is the same
+// shape as datadog's, where shutdown is explored); the fault script includes 429 + Retry-After
+func VerifC16_NewRelic() { verifC16NewRelic("", 0, false) }
+
+func VerifC16_NewRelicCancel() { verifC16NewRelic("", 0, true) }
+
+// all three flush types
+func VerifC16_NewRelicTypes() { verifC16NewRelic("", 2, false) }
 
 // with an API key the Insights / Metrics payloads are gzip-compressed inside the attempt (the
 // real compress/gzip is interpreted)
-func VerifC16_NewRelicKey() { verifC16NewRelic("key") }
+func VerifC16_NewRelicKey() { verifC16NewRelic("key", 2, false) }
 
 // VerifC17_NewRelicRetryBody: one batch, up to three attempts that fail or not, API key set:
 // every attempt must carry the same (compressed) payload.
 func VerifC17_NewRelicRetryBody() {
-	up := &verifC16Upstream{max: 3, okStatus: 202}
-	n := verifC16Client(up, "key", 1)
+	clk := verifNewStepClock()
+	up := &verifC16Upstream{max: 3, okStatus: 202, clk: clk, window: 30 * time.Second, retryAfter: true}
+	n := verifC16Client(up, "key", 1, 2)
 	n.metricsBufferSem <- &bytes.Buffer{}
 	mm := gostatsd.NewMetricMap(false)
 	mm.Gauges["g"] = map[string]gostatsd.Gauge{"": {Value: 1}}
 	res := &verifC16Result{}
-	n.SendMetricsAsync(context.Background(), mm, res.cb)
+	n.SendMetricsAsync(clock.Context(context.Background(), clk), mm, res.cb)
 	verifSettle()
 	verifAssert(res.calls == 1, "newrelic: the completion callback is invoked exactly once")
 	verifAssert(len(up.batchOK) == 1, "newrelic: every attempt of a batch carries the same payload (a retry must not re-encode what the previous attempt encoded)")
@@ -41,14 +50,14 @@ func VerifC17_NewRelicRetryBody() {
 	}
 }
 
-func verifC16Client(up *verifC16Upstream, apiKey string, perBatch int) *Client {
+func verifC16Client(up *verifC16Upstream, apiKey string, perBatch, maxType int) *Client {
 	return &Client{
 		logger:                logrus.StandardLogger(),
 		address:               "http://newrelic/v1/data",
 		addressMetrics:        "http://newrelic/metric/v1",
 		eventType:             "GoStatsD",
 		apiKey:                apiKey,
-		flushType:             []string{flushTypeInfra, flushTypeInsights, flushTypeMetrics}[nondetIntIn(0, 2)],
+		flushType:             []string{flushTypeInfra, flushTypeInsights, flushTypeMetrics}[nondetIntIn(0, maxType)],
 		metricName:            "name", metricType: "type", metricPerSecond: "per_second", metricValue: "value",
 		timerMin:              "min", timerMax: "max", timerCount: "count", timerMean: "mean", timerMedian: "median",
 		timerStdDev:           "std_dev", timerSum: "sum", timerSumSquares: "sum_squares",
@@ -61,15 +70,16 @@ func verifC16Client(up *verifC16Upstream, apiKey string, perBatch int) *Client {
 	}
 }
 
-func verifC16NewRelic(apiKey string) {
-	up := &verifC16Upstream{max: 3, okStatus: 202}
-	ctx, cancel := context.WithCancel(context.Background())
+func verifC16NewRelic(apiKey string, maxType int, withCancel bool) {
+	clk := verifNewStepClock()
+	up := &verifC16Upstream{max: 3, okStatus: 202, clk: clk, window: 30 * time.Second, retryAfter: true}
+	ctx, cancel := context.WithCancel(clock.Context(context.Background(), clk))
 	defer cancel()
-	if nondetBool() {
+	if withCancel && nondetBool() {
 		up.cancel = cancel
 	}
 	nbuf := nondetIntIn(0, 2)
-	n := verifC16Client(up, apiKey, nondetIntIn(1, 2))
+	n := verifC16Client(up, apiKey, nondetIntIn(1, 2), maxType)
 	for i := 0; i < nbuf; i++ {
 		n.metricsBufferSem <- &bytes.Buffer{}
 	}
@@ -79,7 +89,7 @@ func verifC16NewRelic(apiKey string) {
 		mm.Gauges["h"] = map[string]gostatsd.Gauge{"": {Value: 2}}
 	}
 	res := &verifC16Result{}
-	if nondetBool() {
+	if withCancel && nondetBool() {
 		up.cancelled = true
 		cancel()
 	}
